@@ -1,0 +1,54 @@
+# Contracts for the verifier in /verif (comment-only file: it contributes no code and is never imported).
+# Read by /verif/pyvc/pyvc.py, which symbolically executes the real methods of traffic_filter.py.
+
+# ================================================================================================= traffic_filter.py
+#@ module traffic_filter.py
+#@ const _ALLOWED_HEADER_KEY = "x-lunar-allow"
+#@ const _ALLOWED_HEADER_VALUE = "true"
+#@ const _BLACK_HOLE = 0
+# ghost predicates on strings: a dotted IPv4 literal / an IPv6 literal (disjoint by definition)
+#@ extern isv4
+#@   args s
+#@   returns bool
+#@ extern isv6
+#@   args s
+#@   returns bool
+# the standard library (trusted): which inputs they accept, what they may raise
+#@ extern ip_address
+#@   args s
+#@   returns opaque
+#@   raises ValueError unless isv4(s) or isv6(s)
+#@ extern IPv4Address
+#@   args s
+#@   returns opaque
+#@   raises AddressValueError unless isv4(s)
+#@ extern gethostbyname
+#@   args host
+#@   returns str
+#@   raises socket_error
+#@   ensures isv4(result)
+#@ extern _PRIVATE_IP_RANGES.get
+#@   args prefix, default
+#@   returns opaque
+#@ extern self._is_external_cache.get
+#@   args key, default
+#@   returns optional bool
+#@ extern headers.pop
+#@   args key, default
+#@   returns optional str
+
+#@ class TrafficFilter
+#@   field _state_ok: bool
+#@   field _managed: bool
+#@   field _is_external_cache: opaque
+#@   field _block_list: optional opaque
+#@   field _allow_list: optional opaque
+
+# The routing decision itself never raises an error into the application, whatever the destination string is
+# (host name, IPv4 literal, IPv6 literal, anything else) and whether or not it can be resolved.
+#@ method TrafficFilter.is_allowed
+#@   prop C19
+#@   param host_or_ip: str
+#@   param headers: optional opaque
+#@   never-raises[decision-never-raises]
+#@   ensures[disabled-filter-bypasses] (not old(self._state_ok)) ==> result == False
